@@ -18,7 +18,6 @@ use serde_json::{json, Value};
 
 use crate::common::{machinery_failure, Opts, Report, Tier};
 use crate::fixture::{new_rt, Fx};
-use crate::queries::read_answers;
 
 const WATCHDOG_S: u64 = 25;
 
@@ -33,6 +32,9 @@ enum HOp {
     Auto,
     Fill(u32),
     BigMsg(u32), // KiB
+    /// a frame on ANOTHER thread (first use: branch off the thread under test, which leaves the
+    /// parent untouched; later: a message on that child): the log then ends with a foreign frame
+    Other,
 }
 
 fn op_name(op: &HOp) -> String {
@@ -46,6 +48,7 @@ fn op_name(op: &HOp) -> String {
         HOp::Auto => "auto".into(),
         HOp::Fill(n) => format!("fill{n}"),
         HOp::BigMsg(k) => format!("big{k}k"),
+        HOp::Other => "other".into(),
     }
 }
 
@@ -59,6 +62,7 @@ fn parse_op(s: &str) -> HOp {
         "sel" => HOp::SelPair,
         "ckpt" => HOp::Ckpt,
         "auto" => HOp::Auto,
+        "other" => HOp::Other,
         x if x.starts_with("fill") => HOp::Fill(x[4..].parse().unwrap_or(10)),
         x if x.starts_with("big") => HOp::BigMsg(x[3..x.len() - 1].parse().unwrap_or(9)),
         other => machinery_failure(&format!("unknown op {other}")),
@@ -67,6 +71,7 @@ fn parse_op(s: &str) -> HOp {
 
 struct Tracker {
     thread: String,
+    other: Option<String>,
     last_msg: Option<String>,
     last_sess: String,
     n: u64,
@@ -109,6 +114,15 @@ fn apply(fx: &Fx, t: &mut Tracker, op: &HOp) -> Result<(), String> {
         HOp::Auto => {
             store.compaction_auto_v1(&t.thread, CompactionAutoV1Request { stride_messages: Some(2), max_new_checkpoints: Some(2), dry_run: Some(false), actor_id: "u".into(), origin: "o".into() })?;
         }
+        HOp::Other => match t.other.clone() {
+            None => {
+                let (child, _, _) = store.branch(&t.thread, Some("other".into()), None, None, "u".into(), "o".into())?;
+                t.other = Some(child);
+            }
+            Some(o) => {
+                store.append_message(&o, "u".into(), "o".into(), format!("o{}", t.n))?;
+            }
+        },
         HOp::Fill(n) => {
             let m = t.last_msg.clone().unwrap_or_else(|| "none".into());
             for i in 0..*n {
@@ -122,8 +136,35 @@ fn apply(fx: &Fx, t: &mut Tracker, op: &HOp) -> Result<(), String> {
 /// All answers of a store for one thread: read capabilities + the compiled context for every
 /// message as anchor (ids minted by the compile projected away).
 pub fn all_answers(fx: &Fx, thread: &str, light: bool, max_anchors: usize) -> Vec<(String, Value)> {
+    all_answers_ordered(fx, thread, light, max_anchors, false)
+}
+
+/// `replay_last`: ask the cache-backed queries and the compiled contexts BEFORE the replay (a
+/// replay rebuilds unusable caches and would hide what the fast paths serve from them). The
+/// result is in the same canonical order either way.
+pub fn all_answers_ordered(fx: &Fx, thread: &str, light: bool, max_anchors: usize, replay_last: bool) -> Vec<(String, Value)> {
+    all_answers_full(fx, thread, light, max_anchors, replay_last, false)
+}
+
+/// The truth side of the differentials: the cache directory is removed before EVERY query, so
+/// each answer is computed from the log (a query may rebuild caches; the next one must not use them).
+pub fn truth_answers(fx: &Fx, thread: &str, light: bool, max_anchors: usize) -> Vec<(String, Value)> {
+    all_answers_full(fx, thread, light, max_anchors, false, true)
+}
+
+fn all_answers_full(fx: &Fx, thread: &str, light: bool, max_anchors: usize, replay_last: bool, cacheless: bool) -> Vec<(String, Value)> {
     let store = fx.store();
-    let mut out = read_answers(&store, thread, light);
+    let pre = || {
+        if cacheless {
+            fx.drop_caches();
+        }
+    };
+    let mut out = Vec::new();
+    if !replay_last {
+        pre();
+        out.push(crate::queries::replay_answer(&store, thread));
+    }
+    out.extend(crate::queries::read_answers_without_replay_pre(&store, thread, light, &pre));
     let msgs: Vec<String> = fx
         .truth(rip_kernel::StreamKind::Continuity, thread)
         .iter()
@@ -138,6 +179,7 @@ pub fn all_answers(fx: &Fx, thread: &str, light: bool, max_anchors: usize) -> Ve
         p
     };
     for i in picks {
+        pre();
         let link = ContinuityRunLink { continuity_id: thread.to_string(), message_id: msgs[i].clone(), actor_id: "u".into(), origin: "o".into() };
         let v = match fx.engine.verif_compile_context(&link, "run-x") {
             Ok(mut v) => {
@@ -149,6 +191,10 @@ pub fn all_answers(fx: &Fx, thread: &str, light: bool, max_anchors: usize) -> Ve
             Err(e) => json!({"err": e}),
         };
         out.push((format!("compiled_context(anchor=message#{i})"), v));
+    }
+    if replay_last {
+        pre();
+        out.insert(0, crate::queries::replay_answer(&store, thread));
     }
     out
 }
@@ -249,21 +295,45 @@ fn announce(v: Value) {
     let _ = std::io::stdout().flush();
 }
 
-fn compare(report: &Report, hist: &[HOp], fault_desc: &Value, phase: &str, found: &[(String, Value)], truth: &[(String, Value)]) {
+fn compare(report: &Report, hist: &[HOp], fault_desc: &Value, phase: &str, tail: &str, found: &[(String, Value)], truth: &[(String, Value)]) {
+    let mut seen = std::collections::BTreeSet::new();
     for ((name, a), (_, b)) in found.iter().zip(truth.iter()) {
         if a != b {
             let q = name.split('(').next().unwrap_or(name).to_string();
             let fam = fault_desc["file"].as_str().unwrap_or("none").to_string();
             let fault = fault_desc["fault"].as_str().unwrap_or("none").to_string();
             let class = if a.get("err").is_some() && b.get("ok").is_some() { "error_instead_of_answer" } else { "wrong_answer" };
+            // one report per (query kind) and case: every differing capability is attributed
+            let sig = format!("C04:{class}:{q}:{fam}:{}:{tail}:{phase}", fault.split("_op").next().unwrap_or(&fault));
+            if !seen.insert(sig.clone()) {
+                continue;
+            }
             report.violation(
-                &format!("C04:{class}:{q}:{fam}:{}:{phase}", fault.split("_op").next().unwrap_or(&fault)),
-                json!({"engine": "H-histories", "harness": "c04.faults", "history": hist.iter().map(op_name).collect::<Vec<_>>(), "fault": fault_desc, "phase": phase, "query": name}),
+                &sig,
+                json!({"engine": "H-histories", "harness": "c04.faults", "history": hist.iter().map(op_name).collect::<Vec<_>>(), "fault": fault_desc, "phase": phase, "query": name, "tail": tail}),
                 &format!("{name}: with the fault = {} ; with the caches removed = {}", crate::common::compact(a, 400), crate::common::compact(b, 400)),
             );
-            return;
         }
     }
+}
+
+/// What the open-time recovery can see: the kind of the thread's last frame, and whether the
+/// log's last continuity frame belongs to another thread (then recovery does not look at this one).
+fn tail_kind(fx: &Fx, thread: &str, hist: &[HOp]) -> String {
+    let events = fx.truth(rip_kernel::StreamKind::Continuity, thread);
+    let k = match events.last().map(|e| &e.kind) {
+        Some(rip_kernel::EventKind::ContinuityMessageAppended { .. }) => "message",
+        Some(rip_kernel::EventKind::ContinuityRunEnded { .. }) => "run_ended",
+        Some(rip_kernel::EventKind::ContinuityCompactionCheckpointCreated { .. }) => "checkpoint",
+        _ => "other",
+    };
+    let _ = hist;
+    let foreign = fx
+        .truth_all()
+        .ok()
+        .and_then(|all| all.iter().rev().find(|e| e.stream_kind() == rip_kernel::StreamKind::Continuity).map(|e| e.stream_id() != thread))
+        .unwrap_or(false);
+    format!("tail={k}{}", if foreign { "+foreign_last" } else { "" })
 }
 
 fn check_history(report: &Report, rt: &std::sync::Arc<tokio::runtime::Runtime>, hist: &[HOp], pairs: bool, light: bool) {
@@ -271,7 +341,7 @@ fn check_history(report: &Report, rt: &std::sync::Arc<tokio::runtime::Runtime>, 
     announce(json!({"t": "begin", "what": "build", "history": hist_names}));
     let fx = Fx::new(rt.clone());
     let thread = fx.store().ensure_default().expect("thread");
-    let mut t = Tracker { thread: thread.clone(), last_msg: None, last_sess: "sess-none".into(), n: 0 };
+    let mut t = Tracker { thread: thread.clone(), other: None, last_msg: None, last_sess: "sess-none".into(), n: 0 };
     let mut snapshots = Vec::new();
     for op in hist {
         if let Err(e) = apply(&fx, &mut t, op) {
@@ -279,23 +349,24 @@ fn check_history(report: &Report, rt: &std::sync::Arc<tokio::runtime::Runtime>, 
         }
         snapshots.push(cache_snapshot(&fx, &thread));
     }
-    let heavy = hist.iter().any(|o| matches!(o, HOp::Fill(n) if *n > 1000) || matches!(o, HOp::BigMsg(k) if *k > 1000));
+    let tail = tail_kind(&fx, &thread, hist);
+    let heavy = is_heavy(hist);
     let max_anchors = if heavy { 3 } else { 6 };
     // truth: same store, caches removed, fresh authority
     announce(json!({"t": "begin", "what": "truth", "history": hist_names}));
     let truth_fx = fx.copy(false);
-    let truth = all_answers(&truth_fx, &thread, light, max_anchors);
+    let truth = truth_answers(&truth_fx, &thread, light, max_anchors);
     drop(truth_fx);
     // no fault: warm authority and restarted authority
     announce(json!({"t": "begin", "what": "no_fault_warm", "history": hist_names}));
     let found = all_answers(&fx, &thread, light, max_anchors);
     report.eval(Some(&(&hist_names, "none", "warm")));
-    compare(report, hist, &json!({"file": "none", "fault": "none"}), "warm_authority", &found, &truth);
+    compare(report, hist, &json!({"file": "none", "fault": "none"}), "warm_authority", &tail, &found, &truth);
     announce(json!({"t": "begin", "what": "no_fault_restart", "history": hist_names}));
     let re = fx.copy(true);
-    let found = all_answers(&re, &thread, light, max_anchors);
+    let found = all_answers_ordered(&re, &thread, light, max_anchors, true);
     report.eval(Some(&(&hist_names, "none", "restart")));
-    compare(report, hist, &json!({"file": "none", "fault": "none"}), "restarted_authority", &found, &truth);
+    compare(report, hist, &json!({"file": "none", "fault": "none"}), "restarted_authority", &tail, &found, &truth);
     drop(re);
     if heavy {
         // window-crossing threads: delete-only faults on every file (each copy is expensive)
@@ -353,10 +424,10 @@ fn check_history(report: &Report, rt: &std::sync::Arc<tokio::runtime::Runtime>, 
         }
         announce(json!({"t": "begin", "what": "fault", "history": hist_names, "fault": desc}));
         let faulted = Fx::open(dir, data, root, rt.clone());
-        let found = all_answers(&faulted, &thread, light, max_anchors);
+        let found = all_answers_ordered(&faulted, &thread, light, max_anchors, true);
         report.eval(Some(&(&hist_names, desc.to_string(), "restart")));
         report.count("fault_cases", 1);
-        compare(report, hist, &desc, "after_fault", &found, &truth);
+        compare(report, hist, &desc, "after_fault", &tail, &found, &truth);
         if heavy {
             continue;
         }
@@ -379,15 +450,20 @@ fn check_history(report: &Report, rt: &std::sync::Arc<tokio::runtime::Runtime>, 
             continue;
         }
         let truth2_fx = faulted.copy(false);
-        let truth2 = all_answers(&truth2_fx, &thread, true, 3);
-        let found2 = all_answers(&faulted, &thread, true, 3);
+        let truth2 = truth_answers(&truth2_fx, &thread, true, 3);
+        let found2 = all_answers_ordered(&faulted, &thread, true, 3, true);
         report.eval(Some(&(&hist_names, desc.to_string(), "append")));
-        compare(report, hist, &desc, "after_fault_and_append", &found2, &truth2);
+        compare(report, hist, &desc, "after_fault_and_append", &tail, &found2, &truth2);
     }
 }
 
+/// Threads whose every faulted copy is expensive: delete / cut-at-the-end faults only, no append phase.
+fn is_heavy(h: &[HOp]) -> bool {
+    h.iter().any(|o| matches!(o, HOp::Fill(n) if *n > 1000)) || h.iter().map(|o| if let HOp::BigMsg(k) = o { *k as u64 } else { 0 }).sum::<u64>() > 500
+}
+
 fn history_list(tier: Tier) -> Vec<Vec<HOp>> {
-    let base = [HOp::Msg, HOp::Run, HOp::Side, HOp::Cursor(0), HOp::Cursor(1), HOp::SelPair, HOp::Ckpt, HOp::Auto];
+    let base = [HOp::Msg, HOp::Run, HOp::Side, HOp::Cursor(0), HOp::Cursor(1), HOp::SelPair, HOp::Ckpt, HOp::Auto, HOp::Other];
     let depth = tier.pick(3, 4);
     let mut out: Vec<Vec<HOp>> = Vec::new();
     let mut frontier: Vec<Vec<HOp>> = vec![vec![]];
@@ -410,18 +486,19 @@ fn history_list(tier: Tier) -> Vec<Vec<HOp>> {
     }
     // window-crossing prefixes with every depth<=1 (quick) / <=2 (thorough) suffix
     let prefixes: Vec<Vec<HOp>> = match tier {
-        Tier::Quick => vec![vec![HOp::Run, HOp::Cursor(0), HOp::Fill(600)], vec![HOp::Run, HOp::Cursor(0), HOp::SelPair, HOp::Fill(10_001)], vec![HOp::Run, HOp::BigMsg(300)], vec![HOp::Msg; 18]],
+        Tier::Quick => vec![vec![HOp::Run, HOp::Cursor(0), HOp::Fill(600)], vec![HOp::Run, HOp::Cursor(0), HOp::SelPair, HOp::Fill(10_001)], vec![HOp::Run, HOp::BigMsg(300)], vec![HOp::Msg; 18], vec![HOp::BigMsg(20); 40]],
         Tier::Thorough => vec![
             vec![HOp::Run, HOp::Cursor(0), HOp::Fill(600)],
             vec![HOp::Run, HOp::Cursor(0), HOp::SelPair, HOp::Fill(10_001)],
             vec![HOp::Run, HOp::BigMsg(300)],
             vec![HOp::Run, HOp::Cursor(0), HOp::BigMsg(3072), HOp::BigMsg(3072), HOp::BigMsg(3072)],
             vec![HOp::Msg; 18],
+            vec![HOp::BigMsg(20); 40],
         ],
     };
     for p in prefixes {
         out.push(p.clone());
-        let heavy = p.iter().any(|o| matches!(o, HOp::Fill(n) if *n > 1000) || matches!(o, HOp::BigMsg(k) if *k > 1000));
+        let heavy = is_heavy(&p);
         if heavy && tier == Tier::Quick {
             continue;
         }
@@ -537,15 +614,15 @@ pub fn run(opts: Opts) -> i32 {
     let report = Report::new("C04", "fault_enumeration", opts.clone());
     report.set_rule(
         "histories = every sequence of <=3 (quick, depth 3 only after a leading message/run) / <=4 (thorough) ops from {message, answered \
-         stub run, side effects, cursor set (2 keys), selection+compiled pair, manual checkpoint, auto compaction}, plus window-crossing \
-         prefixes (600 and 10 001 dense side-effect frames, a 300 KiB message, 3 x 3 MiB messages, 18 messages) with suffixes; for every \
+         stub run, side effects, cursor set (2 keys), selection+compiled pair, manual checkpoint, auto compaction, a frame on another thread (so that the log ends with a foreign frame)}, plus window-crossing \
+         prefixes (600 and 10 001 dense side-effect frames, a 300 KiB message, 3 x 3 MiB messages (thorough), 18 messages, 40 x 20 KiB messages: a messages+runs sidecar larger than the first tail windows) with suffixes; for every \
          history: no fault (warm and restarted authority) and EVERY single fault {delete, truncate to 0 / 1 byte / inside the last record / \
          at the last line boundary / half, garbage of equal length, roll back to the content after each earlier op} on EVERY cache file of \
-         the thread (thorough: plus all pairs of {delete, drop last line, garbage} and 'everything except X'), a fresh authority, all read \
+         the thread a fresh authority, all read \
          capabilities + the compiled context for every message anchor, then one append and all of it again plus validated replay; a case \
          is distinct by (history, fault set, phase)",
     );
-    report.assume("truth side of the differential = a fresh authority on a copy of the same store with continuity_streams/ removed (equals log replay by construction)");
+    report.assume("truth side of the differential = a fresh authority on a copy of the same store whose continuity_streams/ directory is removed before EVERY query (each answer is computed from the log; caches a query rebuilds are never read)");
     report.assume("every worker runs under a 25 s watchdog per announced step (slowest legitimate step measured < 3 s)");
     if let Some(path) = &opts.replay {
         let case = crate::common::load_replay_case(path);
